@@ -239,7 +239,13 @@ func handleSINTERCARD(params internal.HandlerFuncParams) ([]byte, error) {
 
 	intersect, _ := Intersection(limit, sets...)
 
-	return []byte(fmt.Sprintf(":%d\r\n", intersect.Cardinality())), nil
+	// Intersection returns a single operand whole, so the limit is applied to the cardinality here as well
+	cardinality := intersect.Cardinality()
+	if limit > 0 && cardinality > limit {
+		cardinality = limit
+	}
+
+	return []byte(fmt.Sprintf(":%d\r\n", cardinality)), nil
 }
 
 func handleSINTERSTORE(params internal.HandlerFuncParams) ([]byte, error) {
